@@ -446,6 +446,22 @@ async fn resolve_contact_points_inner(
     (initial_peers, hostnames)
 }
 
+/// Verification hooks: a pool-less `Node` (as unit tests build them).
+#[cfg(feature = "scylla-verif")]
+impl Node {
+    pub(crate) fn verif_new(host_id: Uuid, datacenter: Option<String>, rack: Option<String>) -> Self {
+        Self {
+            host_id,
+            address: NodeAddr::Translatable(SocketAddr::from(([255, 255, 255, 255], 0))),
+            datacenter,
+            rack,
+            pool: None,
+            #[cfg(test)]
+            enabled_as_connected: AtomicBool::new(false),
+        }
+    }
+}
+
 #[cfg(test)]
 mod tests {
     use super::*;
